@@ -1,20 +1,26 @@
 """C15 -- Property reads and writes over the wire are consistent, typed, all-or-nothing.   (spec/ObjStore.tla)
 
 D  TLC exhaustive on the abstract 2-object x 5-property store (writable scalar, read-only scalar, writable array, writable
-   list, optional property without a value; 3 tokens per type incl. a wrong-typed one, lengths, sequences), every
-   Read / Write / RPM / Scan sequence up to the level bound; the step formulas ReadYourWrite, RefusalChangesNothing,
-   MatchingError, ArrayIndexing, RPMEqualsRP and the invariants Shape / Typed / ReadOnlyStable.  The named deviation
-   Dev_ValidateAfterAssign must violate RefusalChangesNothing (vacuity check).
-R  the same model instantiated with the schema of a REAL object class (regenerated from the working tree): TLC
-   enumerates the reachable stores (one shortest operation path each); from every such store every operation of
-   the alphabet is executed on a real device over the wire (edge cover of the store graph), full read-back after
-   every operation; the recorded executions go through Trace_ObjStore (conformance with the design + monitors).
-T  seeded random sequences of reads / writes / RPMs / array scans over EVERY registered object type (vendor 0) as
-   declared, and over an all-writable twin of each class (same datatypes, every property mutable: the way an
-   application makes properties writable), values generated from each property's datatype, wrong-typed values, all
-   index classes, priorities, unknown objects / properties.  A real client stack talks to a real device stack over
-   a VLAN; every request / response is decoded from the wire, tokenised (hex of the encoded tag list per element)
-   and validated by TLC (Trace_ObjStore) against the schema regenerated from the working tree.
+   list, optional property without a value; tokens a, b of the right type, w of a wrong type, d = padding element,
+   lengths, sequences; objects / properties the device does not have; indexes none, 0..3): the FULL closure -- every
+   reachable store and every Read / Write / RPM / Scan of the alphabet from each of them, i.e. operation sequences of
+   any length (states identified by the store, VIEW ViewVal) -- against the step formulas ReadYourWrite,
+   RefusalChangesNothing, MatchingError, ArrayIndexing, RPMEqualsRP and the invariants Shape / Typed / ReadOnlyStable.
+   The named deviation Dev_ValidateAfterAssign must violate RefusalChangesNothing (vacuity check).
+R  the same model instantiated with the schema of a REAL object class (StoreObject below, schema and tokens regenerated
+   from the working tree): TLC enumerates the stores reachable within 1 (quick) / 2 (thorough) operations with one
+   operation path each; from every such store the operations of the alphabet (about 1000) are executed on a real device
+   over the wire (edge cover of the store graph), full read-back after every operation; the recorded executions go
+   through Trace_ObjStore (conformance with the design step by step + the monitors).
+T  seeded random sequences of writes / reads / RPMs / array walks over EVERY registered object type (vendor 0) as
+   declared, and over an all-writable twin of each class (same datatypes, every property mutable: the way an application
+   makes properties writable), two instances per device (the second is a bystander), properties initialised with
+   values generated from their datatypes, values for writes generated from each property's datatype (atomic, enumerated,
+   bit strings, arrays, fixed-length arrays, lists, sequences, choices), wrong-typed values, all index classes (none, 0,
+   1..n, n+1, large), priorities none / 1..16, objects and properties the device does not have.  A real client stack
+   talks to a real device stack over a VLAN; every request / response is decoded from the wire, tokenised (hex of the
+   encoded tag list per element) and validated by TLC (Trace_ObjStore) against the schema regenerated from the working
+   tree on every run.
 """
 import os, sys, json, random, collections, itertools, time, shutil, zlib
 from common import Check, VERIF, WORK, Hang, watchdog
@@ -1297,8 +1303,6 @@ def judge(chk, traces, label, seen):
 # ---------------------------------------------------------------------------------------------------------------------------------
 def main(tier, seed):
     chk = Check("C15", tier, seed)
-    if os.environ.get("C15_DEV_FINDINGS"):      # development aid only: extra known-finding entries from a local file
-        chk.findings = chk.findings + json.load(open(os.environ["C15_DEV_FINDINGS"]))["findings"]
     thorough = tier == "thorough"
     chk.rule = ("model: every Read/Write/RPM/Scan sequence of ObjStore.tla up to the level bound; implementation: one evaluation = "
                 "one request/response exchange decoded from the wire (operations, read-backs after writes, per-element "
@@ -1325,9 +1329,9 @@ def main(tier, seed):
 
     # D: the design satisfies the property
     c = abstract_config()
-    # (VIEW ViewVal: states are identified by the store, so level L = every store reachable by L-1 operations, and every
-    # operation from each of them; 99 = the full closure: operation sequences of ANY length)
-    run_mc(chk, "abstract", c, 99 if thorough else 4, prios=(0, 16) if thorough else (0,), timeout=1500)
+    # (VIEW ViewVal: states are identified by the store; level bound 99 > diameter = the full closure: every reachable
+    # store and every operation of the alphabet from each of them, i.e. operation sequences of ANY length)
+    run_mc(chk, "abstract", c, 99, prios=(0, 16) if thorough else (0,), timeout=1500)
     run_mc(chk, "abstract_dev", c, 3, dev=True, invariants=False, expect_error=("RefusalChangesNothing",))
 
     phase("D_model_checking")
@@ -1365,7 +1369,7 @@ def main(tier, seed):
     rng = random.Random(seed)
     classes = sorted((c.__name__ for (t, v), c in bo.registered_object_types.items() if v == 0))
     chk.extra["registered_object_types"] = len(classes)
-    per_class, nops = (8, 30) if thorough else (1, 14)
+    per_class, nops = (8, 30) if thorough else (1, 20)
     jobs = []
     tid = 0
     for cname in classes:
